@@ -2,6 +2,7 @@ package beacon
 
 import (
 	"context"
+	"time"
 
 	"github.com/drand/drand/v2/common"
 	"github.com/drand/drand/v2/internal/zzfake"
@@ -114,4 +115,47 @@ func ZZ_C04_runLoop() {
 		zz.Assert("no_catchup_emission_when_not_behind", len(client.Partials) == before)
 	}
 	cancel()
+}
+
+func init() { zz.Register("ZZ_C04_tickerContract", ZZ_C04_tickerContract) }
+
+// ZZ_C04_tickerContract: the real ticker goroutines over a fake clock that is moved by a symbolic sequence of
+// steps with SUB-SECOND resolution (bursts, stalls longer than a period, steps ending just before or after a
+// round boundary), starting before genesis or in the middle of a round. Every tick a subscriber receives
+// names a round whose scheduled time has come on the clock, and carries the round of its own timestamp --
+// the contract the emission guards in Handler.run / broadcastNextPartial rely on.
+func ZZ_C04_tickerContract() {
+	const periodS = 3
+	period := periodS * time.Second
+	starts := []time.Duration{-2 * time.Second, 700 * time.Millisecond, 10*time.Second + 2600*time.Millisecond}
+	clk := zzfake.NewClockAt(time.Unix(zzGenesis, 0).Add(starts[zz.Choose("start", len(starts))]))
+	tk := &ticker{clock: clk, period: period, genesis: zzGenesis, newCh: make(chan channelInfo, tickerChanBacklog), stop: make(chan bool, 1)}
+	go tk.Start()
+	zz.Quiesce()
+	ch := tk.ChannelAt(0)
+	zz.Quiesce()
+	steps := []time.Duration{300 * time.Millisecond, time.Second, 2600 * time.Millisecond, period, period + 1600*time.Millisecond, 2*period + 400*time.Millisecond}
+	k := zz.Param("steps", 3)
+	got := 0
+	for i := 0; i < k; i++ {
+		clk.Advance(steps[zz.Choose("step", len(steps))])
+		zz.Quiesce()
+		for drained := false; !drained; {
+			select {
+			case info := <-ch:
+				got++
+				now := clk.Now()
+				sched := time.Unix(common.TimeOfRound(period, zzGenesis, info.round), 0)
+				zz.Assert("ticked_round_is_not_ahead_of_the_clock", !sched.After(now))
+				zz.Assert("tick_carries_the_round_of_its_timestamp", info.round == common.CurrentRound(info.time, period, zzGenesis))
+				zz.Assert("tick_timestamp_is_not_in_the_future", info.time <= now.Unix())
+			default:
+				drained = true
+			}
+		}
+	}
+	if got > 0 {
+		zz.Reach("tick_received")
+	}
+	tk.Stop()
 }
